@@ -47,6 +47,8 @@ func (t *Template) Execute(data any) (any, error) {
 
 func (t *Template) parse(val reflect.Value) (node, error) {
 	switch val.Kind() {
+	case reflect.Invalid:
+		return &valueNode{}, nil
 	case reflect.String:
 		tmpl, err := template.New(t.name).Parse(val.String())
 		if err != nil {
